@@ -381,8 +381,194 @@ func (h *hist) observe() (string, error) {
 		}
 		bsince = append(bsince, Tuple(ZH(sq), ZH(ct), blist(bs)))
 	}
-	return fmt.Sprintf("mk_obs %d %d %s %s %s %s %s %s %s %s %s", headSeq, cnt, List(uns), List(bals), List(uxq), List(aouts), List(txq),
-		List(bseq), List(brange), List(blast), List(bsince)), nil
+	bq, err := h.blockQueries(headSeq)
+	if err != nil {
+		return "", err
+	}
+	return fmt.Sprintf("mk_obs %d %d %s %s %s %s %s %s %s %s %s %s", headSeq, cnt, List(uns), List(bals), List(uxq), List(aouts), List(txq),
+		List(bseq), List(brange), List(blast), List(bsince), List(bq)), nil
+}
+
+// blockQueries asks every block-query API of Visor (verbose and plain) with arbitrary
+// arguments: seq lists that are non-consecutive, descending, repeated, with gaps, with 0,
+// beyond the head; ranges; last-N; by seq; by hash. Every field is printed: block id
+// (header hash), transaction ids, and per input the spent output, owner, coins, hours and
+// CalculatedHours.
+func (h *hist) blockQueries(headSeq uint64) ([]string, error) {
+	v := h.n.V
+	r := h.r
+	row := func(sb coin.SignedBlock, ins [][]visor.TransactionInput, verbose bool) string {
+		tids := make([]string, len(sb.Block.Body.Transactions))
+		for i, t := range sb.Block.Body.Transactions {
+			tids[i] = zi(h.tx.of(t.Hash()))
+		}
+		var il []string
+		if verbose {
+			for _, txi := range ins {
+				rs := make([]string, len(txi))
+				for j, in := range txi {
+					rs[j] = Tuple(zi(h.ux.of(in.UxOut.Hash())), zi(h.addr(in.UxOut.Body.Address)), ZH(in.UxOut.Body.Coins),
+						ZH(in.UxOut.Body.Hours), ZH(in.CalculatedHours))
+				}
+				il = append(il, List(rs))
+			}
+		}
+		return Tuple(zi(h.bk.of(sb.Block.HashHeader())), List(tids), List(il))
+	}
+	rows := func(bs []coin.SignedBlock, ins [][][]visor.TransactionInput, verbose bool) string {
+		l := make([]string, len(bs))
+		for i := range bs {
+			var x [][]visor.TransactionInput
+			if verbose && i < len(ins) {
+				x = ins[i]
+			}
+			l[i] = row(bs[i], x, verbose)
+		}
+		return Some(List(l))
+	}
+	zl := func(a []uint64) string {
+		l := make([]string, len(a))
+		for i, x := range a {
+			l[i] = ZH(x)
+		}
+		return List(l)
+	}
+	seqList := func() []uint64 {
+		n := 1 + r.Intn(4)
+		top := int(headSeq) + 1
+		var l []uint64
+		for i := 0; i < n; i++ {
+			l = append(l, uint64(r.Intn(top)))
+		}
+		switch r.Intn(6) {
+		case 0: // descending
+			sort.Slice(l, func(i, j int) bool { return l[i] > l[j] })
+		case 1: // repeated element
+			l = append(l, l[0])
+		case 2: // genesis first, then far from it
+			l = append([]uint64{0}, l...)
+		case 3: // ascending with gaps
+			sort.Slice(l, func(i, j int) bool { return l[i] < l[j] })
+		case 4: // one beyond the head now and then
+			if r.Chance(40) {
+				l = append(l, headSeq+1)
+			}
+		}
+		return l
+	}
+	var out []string
+	for i := 0; i < 2; i++ {
+		l := seqList()
+		bs, ins, err := v.GetBlocksVerbose(l)
+		h.nq++
+		if err != nil {
+			out = append(out, Tuple("0", zl(l), "None"))
+		} else {
+			out = append(out, Tuple("0", zl(l), rows(bs, ins, true)))
+		}
+	}
+	hashOf := func(k uint64) (cipher.SHA256, int) {
+		sb, err := v.GetSignedBlockBySeq(k)
+		if err != nil || sb == nil {
+			x := cipher.SumSHA256(r.Bytes(8))
+			return x, h.bk.of(x)
+		}
+		return sb.Block.HashHeader(), h.bk.of(sb.Block.HashHeader())
+	}
+	for i := 0; i < 2; i++ {
+		api := 1 + r.Intn(9)
+		h.nq++
+		switch api {
+		case 1, 8:
+			lo, hi := uint64(r.Intn(int(headSeq)+2)), uint64(r.Intn(int(headSeq)+3))
+			if api == 1 {
+				bs, ins, err := v.GetBlocksInRangeVerbose(lo, hi)
+				if err != nil {
+					out = append(out, Tuple("1", zl([]uint64{lo, hi}), "None"))
+				} else {
+					out = append(out, Tuple("1", zl([]uint64{lo, hi}), rows(bs, ins, true)))
+				}
+			} else {
+				bs, err := v.GetBlocksInRange(lo, hi)
+				if err != nil {
+					out = append(out, Tuple("8", zl([]uint64{lo, hi}), "None"))
+				} else {
+					out = append(out, Tuple("8", zl([]uint64{lo, hi}), rows(bs, nil, false)))
+				}
+			}
+		case 2, 9:
+			n := uint64(r.Intn(int(headSeq) + 3))
+			if api == 2 {
+				bs, ins, err := v.GetLastBlocksVerbose(n)
+				if err != nil {
+					out = append(out, Tuple("2", zl([]uint64{n}), "None"))
+				} else {
+					out = append(out, Tuple("2", zl([]uint64{n}), rows(bs, ins, true)))
+				}
+			} else {
+				bs, err := v.GetLastBlocks(n)
+				if err != nil {
+					out = append(out, Tuple("9", zl([]uint64{n}), "None"))
+				} else {
+					out = append(out, Tuple("9", zl([]uint64{n}), rows(bs, nil, false)))
+				}
+			}
+		case 3:
+			k := uint64(r.Intn(int(headSeq) + 2))
+			sb, ins, err := v.GetSignedBlockBySeqVerbose(k)
+			switch {
+			case err != nil:
+				out = append(out, Tuple("3", zl([]uint64{k}), "None"))
+			case sb == nil:
+				out = append(out, Tuple("3", zl([]uint64{k}), Some("[]")))
+			default:
+				out = append(out, Tuple("3", zl([]uint64{k}), Some(List([]string{row(*sb, ins, true)}))))
+			}
+		case 4, 7:
+			hh, id := hashOf(uint64(r.Intn(int(headSeq) + 2)))
+			if api == 4 {
+				sb, ins, err := v.GetSignedBlockByHashVerbose(hh)
+				switch {
+				case err != nil:
+					out = append(out, Tuple("4", List([]string{zi(id)}), "None"))
+				case sb == nil:
+					out = append(out, Tuple("4", List([]string{zi(id)}), Some("[]")))
+				default:
+					out = append(out, Tuple("4", List([]string{zi(id)}), Some(List([]string{row(*sb, ins, true)}))))
+				}
+			} else {
+				sb, err := v.GetSignedBlockByHash(hh)
+				switch {
+				case err != nil:
+					out = append(out, Tuple("7", List([]string{zi(id)}), "None"))
+				case sb == nil:
+					out = append(out, Tuple("7", List([]string{zi(id)}), Some("[]")))
+				default:
+					out = append(out, Tuple("7", List([]string{zi(id)}), Some(List([]string{row(*sb, nil, false)}))))
+				}
+			}
+		case 5:
+			l := seqList()
+			bs, err := v.GetBlocks(l)
+			if err != nil {
+				out = append(out, Tuple("5", zl(l), "None"))
+			} else {
+				out = append(out, Tuple("5", zl(l), rows(bs, nil, false)))
+			}
+		case 6:
+			k := uint64(r.Intn(int(headSeq) + 2))
+			sb, err := v.GetBlock(k)
+			switch {
+			case err != nil:
+				out = append(out, Tuple("6", zl([]uint64{k}), "None"))
+			case sb == nil:
+				out = append(out, Tuple("6", zl([]uint64{k}), Some("[]")))
+			default:
+				out = append(out, Tuple("6", zl([]uint64{k}), Some(List([]string{row(*sb, nil, false)}))))
+			}
+		}
+	}
+	return out, nil
 }
 
 func minI(a, b int) int {
@@ -445,7 +631,7 @@ func (h *hist) execBlock(txns coin.Transactions, dt uint64, tag string) error {
 	}
 	if err := h.n.V.ExecuteSignedBlock(sb); err != nil {
 		// the node refuses a block its own CreateBlockFromTxns built: an observable (head -1), the history ends
-		h.steps = append(h.steps, Tuple("HBlock ("+h.blockTerm(sb)+")", "[]", "mk_obs (-1) (-1) [] [] [] [] [] [] [] [] []"))
+		h.steps = append(h.steps, Tuple("HBlock ("+h.blockTerm(sb)+")", "[]", "mk_obs (-1) (-1) [] [] [] [] [] [] [] [] [] []"))
 		h.desc = append(h.desc, fmt.Sprintf("BLOCK-REJECTED(%v)", err))
 		h.nsteps++
 		h.dist.Add("block:rejected")
@@ -563,7 +749,7 @@ func (h *hist) reopen() error {
 	n, err := h.w.Open(path, true)
 	if err != nil {
 		// the node cannot start on its own database: an observable, not a harness error
-		h.steps = append(h.steps, Tuple(fmt.Sprintf("HReopen %s %s %s", iw, hw, List(order)), "[]", "mk_obs (-1) (-1) [] [] [] [] [] [] [] [] []"))
+		h.steps = append(h.steps, Tuple(fmt.Sprintf("HReopen %s %s %s", iw, hw, List(order)), "[]", "mk_obs (-1) (-1) [] [] [] [] [] [] [] [] [] []"))
 		h.desc = append(h.desc, fmt.Sprintf("REOPEN-FAILED(%s,%s): %v", iw, hw, err))
 		h.dist.Add("reopen:failed")
 		return errReopen
